@@ -125,7 +125,7 @@ int __wrap_pthread_mutex_trylock(pthread_mutex_t *m)
     obj_need(m, K_MUTEX, "pthread_mutex_trylock");
     sched_point(OP_MUTEX_TRYLOCK, m, 0);
     o = obj_need(m, K_MUTEX, "pthread_mutex_trylock");
-    if (o->owner != -1) return EBUSY;
+    if (o->owner != -1) { ch_note(0xEB); return EBUSY; }
     o->owner = my_tid; mon_acquire_obj(m); T[my_tid].barriers++;
     return 0;
 }
@@ -225,7 +225,7 @@ int __wrap_pthread_rwlock_tryrdlock(pthread_rwlock_t *l)
     Obj *o; obj_need(l, K_RWLOCK, "pthread_rwlock_tryrdlock");
     sched_point(OP_TRYRDLOCK, l, 0);
     o = obj_need(l, K_RWLOCK, "pthread_rwlock_tryrdlock");
-    if (o->owner != -1) return EBUSY;
+    if (o->owner != -1) { ch_note(0xEB); return EBUSY; }
     o->readers++; o->rd_by[my_tid]++; mon_acquire_obj(l);
     return 0;
 }
@@ -243,7 +243,7 @@ int __wrap_pthread_rwlock_trywrlock(pthread_rwlock_t *l)
     Obj *o; obj_need(l, K_RWLOCK, "pthread_rwlock_trywrlock");
     sched_point(OP_TRYWRLOCK, l, 0);
     o = obj_need(l, K_RWLOCK, "pthread_rwlock_trywrlock");
-    if (o->owner != -1 || o->readers) return EBUSY;
+    if (o->owner != -1 || o->readers) { ch_note(0xEB); return EBUSY; }
     o->owner = my_tid; mon_acquire_obj(l);
     return 0;
 }
